@@ -191,6 +191,9 @@ def mk_stubs():
     def st_memcpy(ex, d, s, n, vol=None):
         src = ex.mem[s.region]['cells']
         dst = ex.mem[d.region]['cells']
+        init = ex.mem[s.region].get('init')
+        if init is not None and 'zeroinitializer' in init and not src:
+            dst.clear(); ex.mem[d.region]['zeroed'] = True
         for k, v in list(src.items()):
             if k == 'bytes': continue
             dst[k] = v.copy() if isinstance(v, SymStr) else v
